@@ -297,3 +297,64 @@ Proof.
   pose proof (prime_ge_2 _ (proj1 (proj2 (proj2 WF)))).
   rewrite Z.mod_small by lia. destruct (Z.ltb_spec T (2 ^ Z.of_nat w)); [reflexivity|lia].
 Qed.
+
+(* a missing contribution: unless q divides R * x_missing, the result is never T (it is either another
+   valid type or, for all but 2^w - 1 of the q residues, the sentinel 2^w) *)
+Corollary open_missing_not_T (G : group) (w : nat) (x_own : Z) (others contributing missing : list Z) (T : Z)
+    (chain : list (Z * bool)) (t : Z) :
+  wf_group G -> 2 ^ Z.of_nat w <= gq G -> Z.of_nat w <= TMCG_MAX_FPOWM_T ->
+  wfe G x_own -> Forall (wfe G) others -> Permutation others (contributing ++ missing) ->
+  0 <= T < 2 ^ Z.of_nat w -> Forall (fun rb => wfe G (fst rb)) chain ->
+  (zsum (map fst chain) * zsum missing) mod gq G <> 0 ->
+  open_run G w x_own others contributing T chain = inl t -> t <> T.
+Proof.
+  intros WF Hw Hw2 Hx Ho Perm HT Hc Hne E.
+  rewrite (open_run_spec G w x_own others contributing missing T chain) in E by assumption.
+  inversion E as [E']. clear E. unfold expected_type.
+  pose proof (prime_ge_2 _ (proj1 (proj2 (proj2 WF)))) as q2.
+  set (RX := zsum (map fst chain) * zsum missing) in *.
+  destruct (Z.ltb_spec ((T + RX) mod gq G) (2 ^ Z.of_nat w)) as [L|L]; [|lia].
+  intros Eq. apply Hne.
+  replace RX with ((T + RX) - T) by ring.
+  rewrite Zminus_mod, Eq, (Z.mod_small T) by lia. rewrite Z.sub_diag. apply Zmod_0_l.
+Qed.
+
+(* exactly the sentinel, or a valid type: the two possible outcomes of an opening *)
+Lemma expected_type_range (G : group) (w : nat) (E : Z) : 2 <= gq G ->
+  0 <= expected_type G w E <= 2 ^ Z.of_nat w.
+Proof.
+  intros. unfold expected_type. pose proof (Z.mod_pos_bound E (gq G) ltac:(lia)).
+  destruct (Z.ltb_spec (E mod gq G) (2 ^ Z.of_nat w)); lia.
+Qed.
+
+(* ---- a concrete group (non-vacuity) and a run in which a missing share yields another valid type ---------- *)
+Lemma prime_11 : prime 11.
+Proof.
+  apply prime_intro; [lia|]. intros n Hn. apply Zgcd_1_rel_prime.
+  assert (n = 1 \/ n = 2 \/ n = 3 \/ n = 4 \/ n = 5 \/ n = 6 \/ n = 7 \/ n = 8 \/ n = 9 \/ n = 10) as C by lia.
+  repeat (destruct C as [-> | C]; [reflexivity|]). subst n. reflexivity.
+Qed.
+
+Lemma small_group_wf : wf_group {| gp := 23; gq := 11; gg := 2 |}.
+Proof.
+  unfold wf_group. cbn [gp gq gg]. split; [lia|]. split; [reflexivity|]. split; [exact prime_11|].
+  split; [reflexivity|]. cbn. lia.
+Qed.
+
+Lemma small_wfe_11 (e : Z) : 0 <= e < 11 -> wfe {| gp := 23; gq := 11; gg := 2 |} e.
+Proof.
+  intros H. split; [lia|]. cbn [gq]. pose proof max_ge_64.
+  pose proof (bitlen_mono e 10 ltac:(lia)) as B. change (bitlen 10) with 4 in B. change (bitlen 11) with 4. lia.
+Qed.
+
+Lemma open_missing_valid_type_witness :
+  exists G w x_own others contributing T chain t,
+    wf_group G /\ 2 ^ Z.of_nat w <= gq G /\ wfe G x_own /\ Forall (wfe G) others /\
+    contributing <> others /\ 0 <= T < 2 ^ Z.of_nat w /\
+    open_run G w x_own others contributing T chain = inl t /\ t <> T /\ t <> 2 ^ Z.of_nat w.
+Proof.
+  exists {| gp := 23; gq := 11; gg := 2 |}, 2%nat, 3, [5], [], 1, [(7, true)], 3.
+  split; [exact small_group_wf|]. split; [cbn; lia|]. split; [apply small_wfe_11; lia|].
+  split; [constructor; [apply small_wfe_11; lia|constructor]|]. split; [discriminate|].
+  split; [cbn; lia|]. split; [vm_compute; reflexivity|]. split; [lia|cbn; lia].
+Qed.
